@@ -25,6 +25,12 @@ class C13Color(SerializableEnum):
     BIG = 70000
 
 
+class C13Shape(SerializableEnum):
+    """shares its values with C13Color: a member must come back as a member of ITS class"""
+    SQUARE = 1
+    CIRCLE = 2
+
+
 class C13Tag(SerializableEnum):
     A = b"a"
     B = b"\x00bb"
@@ -35,6 +41,11 @@ class C13Empty(Serializable):
 
 
 class C13One(Serializable):
+    x: object = None
+
+
+class C13Uno(Serializable):
+    """same field layout as C13One"""
     x: object = None
 
 
@@ -61,7 +72,7 @@ INTS = [0, 1, -1, 127, -127, 128, -128, 129, -129, 32767, -32767, 32768, -32768,
 FLOATS = [0.0, -0.0, 1.5, 3.14, 1e38, 1.401298464324817e-45, float("inf"), float("-inf"), float("nan"), -2.5]
 STRS = ["", "a", "é", "日本", "\x00", "x" * 128, "x" * 127]
 BYTES = [b"", b"\x00", b"a" * 127, b"b" * 128, b"c" * 129]
-SCALARS = [True, False, None] + INTS + FLOATS + STRS + BYTES + [C13Color.RED, C13Color.BIG, C13Tag.B]
+SCALARS = [True, False, None] + INTS + FLOATS + STRS + BYTES + [C13Color.RED, C13Color.BIG, C13Tag.B, C13Shape.SQUARE, C13Shape.CIRCLE]
 HASHABLE = [v for v in SCALARS]
 # thinned representative sets for the deeper levels
 S_THIN = [True, None, 0, -1, 128, -32769, 2 ** 31, -2 ** 63, 1.5, float("nan"), "", "日本", b"", b"b" * 128, C13Color.GREEN]
@@ -124,6 +135,14 @@ def gen_values(tier):
     for combo in itertools.product(*[vals[:2] for vals in alts.values()]):
         yield C13Defaults(**dict(zip(alts.keys(), combo))), "class-defaults all fields"
     yield [C13Defaults(name=None), {"k": C13Defaults(items=None, hp=None)}], "class-defaults nested"
+    # look-alikes: equal enum values in two enum classes, equal field layouts in two classes, in both orders
+    for a, b in ((C13Color.RED, C13Shape.SQUARE), (C13Shape.CIRCLE, C13Color.GREEN), (C13One(x=1), C13Uno(x=1)), (C13Uno(x=None), C13One(x=None)),
+                 (C13One(x=C13Shape.SQUARE), C13One(x=C13Color.RED))):
+        yield b, "look-alike"
+        yield a, "look-alike"
+        yield [a, b, a], "look-alike"
+        yield {"p": b, "q": a}, "look-alike"
+        yield C13Three(a=b, b=a, c=[a, b]), "look-alike"
     yield [], "list0"
     yield (), "tuple0"
     yield set(), "set0"
@@ -355,7 +374,7 @@ def run(tier, seed):
         "classes": {k: v for k, v in classes.items() if not k.startswith("shape:")},
         "shapes": {k[6:]: v for k, v in classes.items() if k.startswith("shape:")},
         "exhaustive": True,
-        "samples": [repr(v)[:120] for v, _ in itertools.islice(gen_values(tier), 1000, 1800, 160)],
+        "samples": core.safe_samples(lambda: [repr(v)[:120] for v, _ in itertools.islice(gen_values(tier), 1000, 1800, 160)]),
     }
     rep.assumptions = ["equality: structural, tuples==lists, floats at float32 precision, nan==nan, bool distinct from int, classes field-wise"]
     return rep
